@@ -17,6 +17,7 @@ A_NONE = 0
 # nk+6 nested fixture
 SITES = ["setUp-before-upcall", "setUp-after-upcall", "body", "tearDown", "inside-cleanup-of-action-0"]
 MISSING = "<missing>"
+INITIAL = {0: MISSING, 1: "orig", 2: None, False: MISSING, True: "orig"}     # initial state of the patched attribute
 
 
 class Target:
@@ -40,7 +41,7 @@ def is_fault(typ, par):
 def reference(su, body, td, acts, existing):
     """Reference interpreter of the statement. Returns (log, leftover_attr, raised_any)."""
     log, stack = [], []
-    attr = ["orig" if existing else MISSING]
+    attr = [INITIAL[existing]]
 
     class Abort(Exception):
         pass
@@ -157,7 +158,7 @@ def build(su, body, td, acts, existing, log, target):
 def run_c02(su, body, td, acts, existing):
     target = Target()
     if existing:
-        target.attr = "orig"
+        target.attr = INITIAL[existing]
     log = []
     case = build(su, body, td, acts, existing, log, target)
     names1, exc1, _ = L.run_once(case, P.FEXT)
@@ -175,7 +176,7 @@ def run_c02(su, body, td, acts, existing):
         problems.append("cleanups left registered after run()")
     if attr1 != exp_attr or getattr(target, "attr", MISSING) != exp_attr:
         problems.append("patched attribute not restored: %r" % (attr1,))
-    if exp_attr != ("orig" if existing else MISSING):
+    if exp_attr != INITIAL[existing] and not (exp_attr is None and INITIAL[existing] is None):
         problems.append("REFERENCE BUG: reference leaves attribute patched")
     if log2 != log1 or names2 != names1 or type(exc1) is not type(exc2):
         problems.append("second run differs: %r/%r vs %r/%r" % (log2, names2, log1, names1))
@@ -233,13 +234,16 @@ def _pick(su, body, td, nact, s0, a0, s1, a1, s2, a2, existing, mf, tier_kinds):
                 raise ch.Prune()
             left[0] -= 1
         v["a%d" % j] = a
-    v["existing"] = ch.cbool(existing)
+    # the initial state of the attribute only matters when something patches it
+    has_patch = any(decode_action(v["a%d" % j], kinds)[0] == "patch" for j in range(v["nact"]))
+    v["existing"] = ch.sel("existing", existing, 3) if has_patch else 1
     return v, kinds
 
 
 def h_order(su: int, body: int, td: int, nact: int, s0: int, a0: int, s1: int, a1: int,
-            s2: int, a2: int, existing: bool, mf: int, tk: int) -> bool:
+            s2: int, a2: int, existing: int, mf: int, tk: int) -> bool:
     """
+    pre: 0 <= existing < 3
     pre: 0 <= su < 7 and 0 <= body < 7 and 0 <= td < 7 and 0 <= nact < 4 and 0 <= mf < 5
     pre: 0 <= s0 < 5 and 0 <= s1 < 5 and 0 <= s2 < 5 and 0 <= a0 < 13 and 0 <= a1 < 13 and 0 <= a2 < 13
     pre: 0 <= tk < 2
@@ -264,7 +268,7 @@ def h_order(su: int, body: int, td: int, nact: int, s0: int, a0: int, s1: int, a
 def _args_from(v):
     return (v.get("su", 0), v.get("body", 0), v.get("td", 0), v.get("nact", 0),
             v.get("s0", 0), v.get("a0", 0), v.get("s1", 0), v.get("a1", 0), v.get("s2", 0),
-            v.get("a2", 0), v.get("existing", True), v.get("mf", 2), v.get("tk", 0))
+            v.get("a2", 0), v.get("existing", 1), v.get("mf", 2), v.get("tk", 0))
 
 
 def _observe(su, body, td, nact, s0, a0, s1, a1, s2, a2, existing, mf, tk):
@@ -292,13 +296,13 @@ def _describe(su, body, td, nact, s0, a0, s1, a1, s2, a2, existing, mf, tk):
 def _fid(seed):
     import random
     rng = random.Random(seed)
-    out = [(0, 0, 0, 0, 0, 0, 0, 0, 0, 0, True, 2, 0)]
+    out = [(0, 0, 0, 0, 0, 0, 0, 0, 0, 0, 1, 2, 0)]
     for _ in range(150):
         nact = rng.randrange(1, 4)
         su = rng.choice([0, 0, 0, 1, 4])
         out.append((su, rng.randrange(5) if su == 0 else 0, rng.randrange(5) if su == 0 else 0, nact,
                     rng.randrange(4), rng.randrange(11), rng.randrange(5), rng.randrange(11),
-                    rng.randrange(5), rng.randrange(11), rng.random() < 0.5, 4, 0))
+                    rng.randrange(5), rng.randrange(11), rng.randrange(3), 4, 0))
     return out
 
 
@@ -329,7 +333,7 @@ HARNESSES = [
                          "each at one of 5 sites (setUp before/after upcall, body, tearDown, inside the cleanup of "
                          "action 0) and of 11 types (cleanup x 5 behaviours, patch of an existing / missing "
                          "attribute, fixture ok / setUp fails / cleanUp fails / nested); at most 2 faults per "
-                         "program; attribute initially present or absent; every program is run twice on the same instance",
+                         "program; attribute initially absent, present, or present with value None; every program is run twice on the same instance",
                 "thorough": "7-behaviour alphabet (+ expected failure, MultipleExceptions), 0..3 actions of 13 types, "
                             "fault budget 2 (3 actions) / 3 (<=2 actions)"},
         rule="one program per path; non-trivial = at least one cleanup/patch/fixture registered",
